@@ -11,7 +11,7 @@ ARG_TYPE = {"entity": "e", "activity": "a", "agent": "ag", "trigger": "e", "star
             "delegate": "ag", "responsible": "ag", "influencee": "e", "influencer": "e", "specificEntity": "e",
             "generalEntity": "e", "alternate1": "e", "alternate2": "e", "collection": "e"}
 EXTRAS = ["ex:k=str", "ex:n=int", "prov:role", "prov:type=qname", "prov:label", "ex:b=bool", "ex:t=datetime", "ex:u=uri",
-          "ex:l=lang", "prov:location", "prov:value"]
+          "ex:l=lang", "prov:location", "prov:value", "ex:big=int64", "ex:neg=int"]
 
 
 def _extra(i, d):
@@ -37,8 +37,14 @@ def _extra(i, d):
         return ("ex:u", Identifier("http://x/y"))
     if name == "ex:l=lang":
         return ("ex:l", Literal("bonjour", None, "fr"))
+    if name == "prov:value":
+        return ("prov:value", 7)
     if name == "prov:location":
         return ("prov:location", "somewhere")
+    if name == "ex:big=int64":
+        return ("ex:big", 6442450944)
+    if name == "ex:neg=int":
+        return ("ex:neg", -5)
     return ("prov:value", 7)
 
 
